@@ -68,6 +68,10 @@ def r05_1_forwarding(chk):
         fs = chk.terms.summary(f)
         cterms = ctor_calls(fs, ic)
         if not cterms:
+            # the item is built in a helper of the logical file: look through it
+            fs = chk.terms.inline(f, 2, stop=lambda g: g.cls is not f.cls or g.name == "__init__" or g.kind == "property")
+            cterms = ctor_calls(fs, ic)
+        if not cterms:
             raise AnalysisError(f"{f.name}: construction of {ic.name} not found in the value-flow summary")
         init_pos = [p for p in (init.param_names[1:] if init else [])]
         for cterm in cterms:
